@@ -73,6 +73,52 @@ def _worker_init(prop):
         _ENGINE.setup()
 
 
+def run_case(eng, case, timeout=3600):
+    """One case = one execution.  Engines that call repository code inside the worker process (ISOLATE = True) run every case in
+    a forked child: whatever an execution leaves behind in module-level or class-level state of the repository (memo tables, default
+    arguments, handle registries) dies with it, so a violation can only come from the case's own history and replays from its file."""
+    if not getattr(eng, 'ISOLATE', False):
+        return eng.execute(case)
+    import pickle
+    r, w = os.pipe()
+    pid = os.fork()
+    if pid == 0:
+        code = 0
+        try:
+            os.close(r)
+            # (faulthandler's watchdog thread does not exist in the child; touching it here would wait for it for ever)
+            import signal
+            signal.signal(signal.SIGALRM, signal.SIG_DFL)
+            signal.alarm(int(timeout))
+            try:
+                data = pickle.dumps(('ok', eng.execute(case)))
+            except BaseException:
+                data = pickle.dumps(('error', traceback.format_exc()))
+            off = 0
+            while off < len(data):
+                off += os.write(w, data[off:off + 65536])
+            os.close(w)
+        except BaseException:
+            code = 3
+        finally:
+            os._exit(code)
+    os.close(w)
+    chunks = []
+    while True:
+        b = os.read(r, 1 << 16)
+        if not b:
+            break
+        chunks.append(b)
+    os.close(r)
+    os.waitpid(pid, 0)
+    if not chunks:
+        raise RuntimeError('isolated execution ended without a result (killed or timed out)')
+    kind, val = pickle.loads(b''.join(chunks))
+    if kind == 'error':
+        raise RuntimeError('isolated execution raised:\n' + val)
+    return val
+
+
 def _summarise(eng, case, out, idx, want_sample):
     s = {
         'idx': idx,
@@ -116,10 +162,10 @@ def _run_chunk(args):
             case.setdefault('run_seed', seed)
             case.setdefault('property', prop)
             case.setdefault('engine', eng.NAME)
-            out = eng.execute(case)
+            out = run_case(eng, case, per_run_timeout)
             s = _summarise(eng, case, out, idx, want_sample=(n == 0))
             if recheck and n == len(indices) - 1:
-                out2 = eng.execute(copy.deepcopy(case))
+                out2 = run_case(eng, copy.deepcopy(case), per_run_timeout)
                 s['recheck'] = (out2['digest'] == out['digest'])
         except Exception:
             faulthandler.cancel_dump_traceback_later()
@@ -179,7 +225,7 @@ def replay_file(path):
     if hasattr(eng, 'setup'):
         eng.setup()
     case = {k: v for k, v in doc.items() if k not in ('violation', 'digest', 'repo_head', 'tree_dirty')}
-    out = eng.execute(case)
+    out = run_case(eng, case)
     return doc, out
 
 
@@ -378,18 +424,18 @@ def run_check(prop, tier, verif_seed, procs=None, out_evidence=True, max_runs=No
         if hasattr(eng, 'narrow'):      # make the enumerated fault explicit before minimising
             case = eng.narrow(case, v)
         mcase, used = minimise_case(eng, case, v, seconds=plan.get('min_s', 45))
-        out = eng.execute(copy.deepcopy(mcase))
+        out = run_case(eng, copy.deepcopy(mcase))
         mv = [x for x in out['violations'] if x['class'] == v['class'] and x['property'] == v['property'] and x.get('signature') == v.get('signature')]
         if not mv:   # minimisation lost it (should not happen): fall back
             mcase = case
-            out = eng.execute(copy.deepcopy(mcase))
+            out = run_case(eng, copy.deepcopy(mcase))
             mv = [x for x in out['violations'] if x['class'] == v['class'] and x['property'] == v['property']]
         if not mv:
             print(f'HARNESS-ERROR violation {key} did not reproduce in-process (seed {r["seed"]})', file=sys.stderr)
             return 2
         if hasattr(eng, 'make_explicit'):   # explicit scheduler decisions instead of 'regenerate from seed'
             xcase = eng.make_explicit(mcase, out)
-            xout = eng.execute(copy.deepcopy(xcase))
+            xout = run_case(eng, copy.deepcopy(xcase))
             if xout['digest'] != out['digest']:
                 print(f'HARNESS-ERROR explicit-schedule replay of seed {r["seed"]} has a different digest', file=sys.stderr)
                 return 2
@@ -471,7 +517,7 @@ def run_check(prop, tier, verif_seed, procs=None, out_evidence=True, max_runs=No
 
 def minimise_case(eng, case, v, seconds=45):
     def still(c):
-        out = eng.execute(copy.deepcopy(c))
+        out = run_case(eng, copy.deepcopy(c))
         return any(x['class'] == v['class'] and x['property'] == v['property'] and x.get('signature') == v.get('signature')
                    for x in out.get('violations', []))
     lp = getattr(eng, 'LIST_PATHS', ())
